@@ -124,7 +124,8 @@ def main(tier, seed, replay=None):
         run.tie("proof gate", p)
     drv = build_driver()
     profiles = [False] + ([True] if tier == "thorough" else [])
-    if replay:
+    world_replay = bool(replay) and '"scenario"' in open(replay).read()
+    if replay and not world_replay:
         cases, n_exh = [unhexs(json.load(open(replay))["replay"]["input_hex"])], 0
     else:
         cases, n_exh = gen_cases(tier, rng)
@@ -240,6 +241,13 @@ def main(tier, seed, replay=None):
                 vm_bad += 1
                 run.tie("extraction vs vm_compute", {"input_hex": hexs(cases[i]), "vm": s, "ocaml": m_impl[i]})
     distinct_changed = len({c for c, q in okpairs if c != q})
+    # whole-program leg: spellings in the manifest, on the command line and in commands' reports (depfile and /showIncludes style)
+    import worldcheck as WC
+    wstats = {}
+    if not replay or world_replay:
+        wstats, _, _, _ = WC.world_leg(run, PROP, rng, tier, drv, har, 150 if tier == "quick" else 1500,
+                                       [WC.monitor_one_node_per_location, WC.monitor_null_build],
+                                       replay=replay if world_replay else None)
     run.coverage.update(info)
     run.coverage.update({
         "checker_cmd": "make -C coq theories/Props/C13.vo && coqc Gate_C13.v (Check pinned statements + Print Assumptions)" + ("; coqchk -o" if tier == "thorough" else ""),
@@ -257,6 +265,7 @@ def main(tier, seed, replay=None):
         "samples": [{"input": repr(c), "impl": r, "model": a} for c, r, a in
                     [(cases[i], impl[i], m_impl[i]) for i in rng.sample(range(len(cases)), 6)]],
         "same_node_groups": len(groups),
+        "whole_program_spelling_histories": wstats,
     })
     run.assumptions += [
         "the theorems are about Model/Canon.v; its tie to src/canon.rs is the differential check above",
